@@ -38,8 +38,8 @@ ASSUMPTIONS = ["model/gf2m.py: carry-less polynomial arithmetic on Python ints m
                "scalar multiplications are fed affine (BASIC) points; projective operands are exercised on the "
                "point operations"]
 
-KNOWN = os.path.join(os.path.dirname(os.path.dirname(os.path.dirname(os.path.abspath(__file__)))),
-                     "known_findings.jsonl")
+KNOWN = os.environ.get("VF_KNOWN") or os.path.join(
+    os.path.dirname(os.path.dirname(os.path.dirname(os.path.abspath(__file__)))), "known_findings.jsonl")
 
 # Fatal (sanitizer abort / runaway) defects that are listed as *known* are produced by exactly one directed
 # case per curve, executed first in one shard; everywhere else the generators step around the predicate.
